@@ -48,6 +48,12 @@ def plan(tier, seed):
         for i in range(n):
             specs.append({"kind": kind, "idx": i, "n": n, "budget_s": 40 if tier == "quick" else 235})
     specs.append({"kind": "wide_items", "idx": 0, "n": 1})
+    H = [("MD4", {}, False), ("MD5", {}, False), ("RIPEMD160", {}, False), ("SHA1", {}, False), ("SHA224", {}, False), ("SHA256", {}, False),
+         ("SHA384", {}, False), ("SHA512", {}, False), ("SHA3_256", {}, False), ("keccak", {"digest_bits": 256}, False),
+         ("BLAKE2b", {"digest_bytes": 32}, False), ("BLAKE2s", {"digest_bytes": 32}, False), ("SHAKE128", {}, True), ("TurboSHAKE128", {}, True),
+         ("KangarooTwelve", {}, True)]
+    for i in range(3):
+        specs.append({"kind": "huge_segment", "idx": i, "n": 3, "algos": H[i::3], "timeout_s": 900})
     specs.append({"kind": "peek", "idx": 0, "n": 1, "budget_s": 15 if tier == "quick" else 120})
     return specs
 
@@ -62,7 +68,7 @@ def finalize(agg, tier):
     need += ["guard_page_buffers", "in_place_calls", "scribbled_buffers", "xof_reads", "ctor_first", "final_combined", "reseek",
              "ptype:bytearray", "ptype:memoryview", "tagkind:bytearray", "tagkind:memoryview", "verify:ok", "verify:ValueError",
              "suite:exhaustive3", "suite:drizzle", "suite:empty", "suite:kinds_x_places", "suite:ptypes", "suite:random",
-             "suite:bigblock", "ccm:undeclared", "wide_item_views", "peek_looks"]
+             "suite:bigblock", "ccm:undeclared", "wide_item_views", "peek_looks", "huge_segments"]
     for n in need:
         if not c.get(n):
             out.append("deciding counter %s is zero" % n)
@@ -209,7 +215,38 @@ def w_peek(spec, ctx):
                                "got": got.hex(), "expected": want.hex()})
 
 
+def w_huge_segment(spec, ctx):
+    """ONE segment that carries the length across 2^32 BITS (2^29 + 200 octets in a single update() / new(data)) against the
+    same octets in 64 MiB segments: the result may not depend on the split.  (Absolute values are C03's subject, which has
+    hashlib for some of these algorithms; here every class is its own oracle.)"""
+    import importlib
+    n = (1 << 29) + 200
+    data = bytearray(n)
+    data[0], data[n // 3], data[-1] = 7, 8, 9
+    mv = memoryview(data)
+    piece = 1 << 26
+    for name, kw, xof in spec["algos"]:
+        mod = importlib.import_module("Crypto.Hash." + name)
+        fin = (lambda o: o.read(48)) if xof else (lambda o: o.digest())
+        a = mod.new(**kw)
+        a.update(mv)
+        one = fin(a)
+        b = mod.new(**kw)
+        for off in range(0, n, piece):
+            b.update(mv[off:off + piece])
+        many = fin(b)
+        c = fin(mod.new(data=mv, **kw))
+        ctx.case(("huge-segment", name))
+        ctx.count("huge_segments")
+        ctx.check(one == many == c, "segmentation:%s:huge-single-segment-differs" % name,
+                  "a message of 2^29 + 200 octets gives another result in ONE segment than in 64 MiB segments",
+                  lambda: {"class": name, "octets": n, "one_update": one.hex(), "pieces_of_64MiB": many.hex(), "new(data)": c.hex()})
+    del mv, data
+
+
 def run(spec, ctx):
+    if spec["kind"] == "huge_segment":
+        return w_huge_segment(spec, ctx)
     if spec["kind"] == "wide_items":
         return w_wide_items(spec, ctx)
     if spec["kind"] == "peek":
